@@ -165,7 +165,14 @@ fn dispatch(r: &mut StdRng, out: &mut Out, ncat: usize, n: usize) {
 fn header(r: &mut StdRng, out: &mut Out, stride: usize) {
     let o = ZoneOpts { big: false, weird: false, chains: false };
     let s = new_session(r, out, o, false, 0, false, &[1232]);
-    let qns = query_names(&s);
+    let mut qns = query_names(&s);
+    // boundary QNAMEs: labels of exactly 63 octets (first / second / last label), a name of exactly 255 octets
+    let l63: String = std::iter::repeat('L').take(63).collect();
+    let l61: String = std::iter::repeat('m').take(61).collect();
+    qns.push(format!("{}.example.test.", l63));
+    qns.push(format!("www.{}.example.test.", l63));
+    qns.push(format!("a.{}.", l63));
+    qns.push(format!("{}.{}.{}.{}.", l63, l63, l63, l61));
     let mut fl: usize = r.gen_range(0..stride);
     while fl < 65536 {
         let qn = qns.choose(r).unwrap();
@@ -321,7 +328,9 @@ fn crafted_tsig_session(r: &mut StdRng, out: &mut Out) {
     cat.insert(Entry::Loaded(Arc::new(zone), ()));
     let mut server = Server::new(Arc::new(cat));
     server.set_edns_udp_payload_size(1232).unwrap();
-    let keys = [("tsig.elsewhere.", Alg::Sha256, b"crafted-secret-1".to_vec()), ("key.cdn.elsewhere.", Alg::Sha1, b"crafted-secret-2".to_vec())];
+    let long_key = format!("{}.{}.{}.keys.example.", "k".repeat(60), "l".repeat(60), "m".repeat(50));
+    let keys = [("tsig.elsewhere.".to_string(), Alg::Sha256, b"crafted-secret-1".to_vec()), ("key.cdn.elsewhere.".to_string(), Alg::Sha1, b"crafted-secret-2".to_vec()),
+                (long_key, Alg::Sha256, b"crafted-secret-3".to_vec())];
     let mut map: TsigKeyMap = HashMap::new();
     for (name, alg, secret) in &keys {
         map.insert(nm(name), (if *alg == Alg::Sha1 { Algorithm::HmacSha1 } else { Algorithm::HmacSha256 }, secret.clone().into_boxed_slice()));
@@ -329,6 +338,22 @@ fn crafted_tsig_session(r: &mut StdRng, out: &mut Out) {
     server.set_tsig_keys(Arc::new(map));
     let jkeys: Vec<Value> = keys.iter().map(|(n, a, s)| json!({"name": w(n), "alg": a.tag(), "secret": s})).collect();
     out.emit(json!({"ev": "Cfg", "catalog": [{"name": w(apex), "class": 1, "state": "loaded", "records": jrecs}], "payload": 1232, "keys": jkeys, "rrl": false, "strict": true}));
+    // a known key with a long name, a correctly signed request whose time is far outside the fudge window (BADTIME: the
+    // error TSIG carries six octets of other-data), and the advertised payload size swept across the point where the
+    // signed error response just fits
+    {
+        let (name, alg, secret) = &keys[2];
+        let qn = format!("{}.{}.{}.prov.test.", "q".repeat(60), "r".repeat(60), "s".repeat(40));
+        let total = 12 + (w(&qn).len() + 4) + 11 + (w(name).len() + 10 + w(alg.name()).len() + 16 + alg.out_len() + 6);
+        for adv in (total as u16 - 14)..=(total as u16 + 4) {
+            let mut m = base_query(r, &qn, 1, 1);
+            push_additional(&mut m, &opt_rr(adv, 0, &[0], &[]));
+            let p = TsigParams { key_name: w(name), alg_name: w(alg.name()), time: unix_now() - 100_000, fudge: 300,
+                                 orig_id: u16::from_be_bytes([m[0], m[1]]), error: 0, other: vec![], class: 255, ttl: 0 };
+            tsig_sign(&mut m, &p, *alg, secret, None);
+            out.emit(handle(&server, &m, Transport::Udp, SRC));
+        }
+    }
     for (name, alg, secret) in &keys {
         for (qn, ty) in [("prov.test.", 255u16), ("prov.test.", 16), ("prov.test.", 15), ("alias.prov.test.", 1), ("prov.test.", 2)] {
             for t in [Transport::Udp, Transport::Tcp] {
@@ -359,7 +384,7 @@ fn tsig(r: &mut StdRng, out: &mut Out, ncat: usize, n: usize) {
             // (key, MAC size, MAC, time) only shows when a request fails two of them
             let variant = r.gen_range(0..16);
             let mut variants = vec![variant];
-            if r.gen_bool(0.35) { let v2 = r.gen_range(1..14); if v2 != variant { variants.push(v2); } }
+            if r.gen_bool(0.35) { let v2 = r.gen_range(1..15); if v2 != variant { variants.push(v2); } }
             let mut key_name = k.name.clone();
             if r.gen_bool(0.3) { key_name = key_name.to_uppercase(); }
             let mut alg = k.alg;
@@ -388,6 +413,14 @@ fn tsig(r: &mut StdRng, out: &mut Out, ncat: usize, n: usize) {
                 11 => { p.other = (0..r.gen_range(1..8)).map(|_| r.gen()).collect(); }
                 12 => { p.time = *[0u64, 1 << 31, (1 << 32) + 5, (1 << 47) + 1].choose(r).unwrap(); }
                 13 => { p.error = *[16u16, 17, 18, 1].choose(r).unwrap(); }
+                14 => {
+                    // an algorithm "name" of 255 (maximal), 256 or 257 octets on the wire (the last two are not names)
+                    let last = *[61usize, 62, 63].choose(r).unwrap();
+                    let mut v = Vec::new();
+                    for n in [63usize, 63, 63, last] { v.push(n as u8); v.extend(std::iter::repeat(b'a').take(n)); }
+                    v.push(0);
+                    p.alg_name = v;
+                }
                 _ => {}
             } }
             tsig_sign(&mut m, &p, alg, &secret, mac_len);
